@@ -607,3 +607,159 @@ Proof.
     + intros a. rewrite occupants_In. apply (r_in e s t HR).
   - intros c. apply R_len; assumption.
 Qed.
+
+(* ---------------------------------------------------------------- the direction table (T1) *)
+Lemma zlist_eqb_eq a : forall b, zlist_eqb a b = true <-> a = b.
+Proof.
+  induction a as [|x a IH]; intros [|y b]; simpl; try (split; congruence).
+  rewrite andb_true_iff, Z.eqb_eq, IH. split; [intros [-> ->]; reflexivity|intros H; inversion H; auto].
+Qed.
+
+Fixpoint keys_distinct (tbl : list (list Z * list Z)) : bool :=
+  match tbl with
+  | [] => true
+  | (k, _) :: t => negb (existsb (fun p => zlist_eqb (fst p) k) t) && keys_distinct t
+  end.
+
+(* a king's move on the (row, column) grid *)
+Definition vec_ok (v : list Z) : bool :=
+  match v with
+  | [a; b] => (Z.abs a <=? 1) && (Z.abs b <=? 1) && negb ((a =? 0) && (b =? 0))
+  | _ => false
+  end.
+
+Definition dirmap_ok (tbl : list (list Z * list Z)) : bool :=
+  forallb (fun p => zlist_eqb (lower (fst p)) (fst p) && vec_ok (snd p)) tbl && keys_distinct tbl.
+
+Lemma lookup_dir_In tbl : forall k v,
+  keys_distinct tbl = true -> In (k, v) tbl -> lookup_dir tbl k = Some v.
+Proof.
+  induction tbl as [|[k0 v0] t IH]; intros k v Hd Hin; simpl in *; [destruct Hin|].
+  apply andb_true_iff in Hd. destruct Hd as [Hn Hd]. apply negb_true_iff in Hn.
+  destruct Hin as [H|H].
+  - inversion H; subst. assert (zlist_eqb k k = true) as -> by (apply zlist_eqb_eq; reflexivity). reflexivity.
+  - destruct (zlist_eqb k0 k) eqn:E.
+    + apply zlist_eqb_eq in E. subst k0. exfalso.
+      assert (existsb (fun p => zlist_eqb (fst p) k) t = true) as Hex.
+      { apply existsb_exists. exists (k, v). split; [exact H|]. simpl. apply zlist_eqb_eq. reflexivity. }
+      congruence.
+    + apply IH; assumption.
+Qed.
+
+(* every entry of a well-formed table is found under its own name, whatever the ASCII case of the argument *)
+Lemma dirmap_case_insensitive tbl name k v :
+  dirmap_ok tbl = true -> In (k, v) tbl -> lower name = k ->
+  lookup_dir tbl (lower name) = Some v /\ vec_ok v = true.
+Proof.
+  intros Hok Hin Hl. unfold dirmap_ok in Hok. apply andb_true_iff in Hok. destruct Hok as [Hall Hd].
+  rewrite Hl. split; [apply lookup_dir_In; assumption|].
+  rewrite forallb_forall in Hall. specialize (Hall (k, v) Hin). simpl in Hall.
+  apply andb_true_iff in Hall. tauto.
+Qed.
+
+(* a name that is not in the table is rejected before anything moves *)
+Lemma move2d_bad_name e s a name k :
+  lookup_dir (e_dirs e) (lower name) = None -> move2d e s a name k = (s, Err E_BADDIR).
+Proof. intros H. unfold move2d. rewrite H. reflexivity. Qed.
+
+(* ---------------------------------------------------------------- every rejection is justified *)
+Lemma rejects_true_full e s c :
+  caps_ok e -> rejects e s c = true ->
+  exists k, e_cap e c = Some k /\ 0 < k /\ zlen (content s c) >= k.
+Proof.
+  intros Hc H. unfold rejects in H. destruct (e_cap e c) as [k|] eqn:Ec; [|discriminate].
+  rewrite andb_true_iff, negb_true_iff, Z.eqb_neq in H. destruct H as [Hk Hl].
+  exists k. pose proof (Hc c k Ec). repeat split; lia.
+Qed.
+
+Definition full_for (e : env) (s : state) (tgt : option Z) : Prop :=
+  exists c k, tgt = Some c /\ e_cap e c = Some k /\ 0 < k /\ zlen (content s c) = k /\ is_full e s c = true.
+
+Lemma rejects_full_for e s c : caps_ok e -> Inv e s -> rejects e s c = true -> full_for e s (Some c).
+Proof.
+  intros Hc HI H. destruct (rejects_true_full e s c Hc H) as [k [Ec [Hk Hl]]].
+  pose proof (inv_cap e s HI c k Ec Hk) as Hle.
+  exists c, k. repeat split; try assumption; [lia|].
+  unfold is_full. rewrite Ec. apply Z.eqb_eq. lia.
+Qed.
+
+Lemma set_cell_err_justified e s a tgt s' k :
+  caps_ok e -> Inv e s -> (forall c0, ptr s a = Some c0 -> In a (content s c0)) ->
+  set_cell e s a tgt = (s', Err k) -> k = E_FULL /\ ptr s a <> tgt /\ full_for e s tgt.
+Proof.
+  intros Hc HI Hl H. apply set_cell_cases in H.
+  destruct H as [[_ [_ Hr]]|[[Hne [c [-> [Hr [_ Hk]]]]]|[[Hne [Hnr [c0 [Hp [Hni _]]]]]|[_ [_ [_ [_ Hr]]]]]]];
+    try discriminate.
+  - injection Hk as <-. split; [reflexivity|]. split; [exact Hne|]. apply rejects_full_for; assumption.
+  - exfalso. apply Hni. rewrite (enter_old_content s a tgt c0 Hp Hne). apply Hl. exact Hp.
+Qed.
+
+(* agent.cell = tgt is rejected only (a) because the target is exactly full and the agent is not in it,
+   (b) because a FixedAgent already has a cell, (c) FixedAgent.cell = None *)
+Lemma assign_err_justified e s a tgt s' k :
+  caps_ok e -> Inv e s -> assign e s a tgt = (s', Err k) ->
+  (k = E_FULL /\ ptr s a <> tgt /\ full_for e s tgt)
+  \/ (k = E_FIXED /\ e_kind e a = KFixed /\ ptr s a <> None)
+  \/ (k = E_ATTR /\ e_kind e a = KFixed /\ ptr s a = None /\ tgt = None).
+Proof.
+  intros Hc HI H. unfold assign in H.
+  assert (Hset : e_kind e a <> KFixed -> set_cell e s a tgt = (s', Err k) ->
+                 k = E_FULL /\ ptr s a <> tgt /\ full_for e s tgt).
+  { intros Hk. apply set_cell_err_justified; try assumption. apply (listed_of_nonfixed e); assumption. }
+  destruct (e_kind e a) eqn:Ek.
+  - left. apply Hset; [congruence|exact H].
+  - unfold fixed_set in H. destruct (ptr s a) as [c0|] eqn:Ep.
+    + injection H as _ <-. right. left. repeat split; congruence.
+    + destruct tgt as [c|].
+      * unfold add_agent in H. destruct (rejects e s c) eqn:Er; [|discriminate].
+        injection H as _ <-. left. split; [reflexivity|]. split; [discriminate|].
+        apply rejects_full_for; assumption.
+      * injection H as _ <-. right. right. repeat split; reflexivity.
+  - left. apply Hset; [congruence|exact H].
+Qed.
+
+Lemma rejection_justified_all e ops a tgt s' k :
+  caps_ok e -> let s := exec e init ops in
+  step e s (SetCell a tgt) = (s', Err k) ->
+  (k = E_FULL /\ ptr s a <> tgt /\ full_for e s tgt)
+  \/ (k = E_FIXED /\ e_kind e a = KFixed /\ ptr s a <> None)
+  \/ (k = E_ATTR /\ e_kind e a = KFixed /\ ptr s a = None /\ tgt = None).
+Proof.
+  intros Hc s H. simpl in H.
+  destruct (in_agents e a && match tgt with Some c => in_cells e c | None => true end); [|discriminate].
+  eapply assign_err_justified; [exact Hc|apply reach_inv; exact Hc|exact H].
+Qed.
+
+(* moves: the only other reasons are a missing cell in that direction / no current cell / an unknown name *)
+Lemma move_rejection_justified_all e ops o s' k :
+  caps_ok e -> let s := exec e init ops in
+  (exists a c, o = MoveTo a c) \/ (exists a d, o = MoveRel a d) \/ (exists a name n, o = Move2D a name n) ->
+  step e s o = (s', Err k) ->
+  (k = E_FULL /\ exists c, full_for e s (Some c)) \/ k = E_NODIR \/ k = E_ATTR \/ k = E_BADDIR.
+Proof.
+  intros Hc s Ho H. pose proof (reach_inv e ops Hc) as HI. fold s in HI.
+  assert (Hset : forall a c, e_kind e a <> KFixed -> set_cell e s a (Some c) = (s', Err k) ->
+                 (k = E_FULL /\ exists c, full_for e s (Some c)) \/ k = E_NODIR \/ k = E_ATTR \/ k = E_BADDIR).
+  { intros a c Hk H'. left.
+    destruct (set_cell_err_justified e s a (Some c) s' k Hc HI (listed_of_nonfixed e s a HI Hk) H') as [-> [_ Hf]].
+    split; [reflexivity|]. exists c. exact Hf. }
+  destruct Ho as [[a [c ->]]|[[a [d ->]]|[a [name [n ->]]]]]; simpl in H.
+  - destruct (in_agents e a && in_cells e c && negb (is_fixed (e_kind e a))) eqn:G; [|discriminate].
+    rewrite !andb_true_iff, negb_true_iff in G. destruct G as [_ Gk].
+    eapply Hset; [apply is_fixed_false; exact Gk|exact H].
+  - destruct (in_agents e a && negb (is_fixed (e_kind e a))) eqn:G; [|discriminate].
+    rewrite andb_true_iff, negb_true_iff in G. destruct G as [_ Gk]. apply is_fixed_false in Gk.
+    unfold move_relative in H.
+    destruct (ptr s a) as [c0|]; [|injection H as _ <-; tauto].
+    destruct (e_conn e c0 d) as [c1|]; [|injection H as _ <-; tauto].
+    eapply Hset; eassumption.
+  - destruct (in_agents e a && is_grid2d (e_kind e a)) eqn:G; [|discriminate].
+    rewrite andb_true_iff in G. destruct G as [_ Gk]. apply is_grid2d_true in Gk.
+    unfold move2d in H.
+    destruct (lookup_dir (e_dirs e) (lower name)); [|injection H as _ <-; tauto].
+    destruct (n <=? 0).
+    + unfold set_cell in H. rewrite (proj2 (opt_eqb_true _ _) eq_refl) in H. discriminate.
+    + destruct (ptr s a) as [c0|]; [|injection H as _ <-; tauto].
+      destruct (walk e l (Z.to_nat n) c0) as [c1|]; [|injection H as _ <-; tauto].
+      eapply Hset; eassumption.
+Qed.
